@@ -56,6 +56,9 @@ def Pt.ofV3 (v : V3) : Pt := ⟨some v.x, some v.y, some v.z⟩
 def Pt.resolve (p : Pt) : V3 := ⟨p.x.getD 0, p.y.getD 0, p.z.getD 0⟩
 /-- `origin.replace(*point)` on a resolved origin -/
 def V3.replace (o : V3) (q : Pt) : V3 := ⟨q.x.getD o.x, q.y.getD o.y, q.z.getD o.z⟩
+/-- `Point.replace`: requested coordinates replace the tracked ones, unknown axes stay unknown -/
+def Pt.replace (o q : Pt) : Pt := ⟨q.x <|> o.x, q.y <|> o.y, q.z <|> o.z⟩
+
 /-- `Point.combine(o, t, m)`: a coordinate of `m` is kept iff it was requested or `o` and `t` differ -/
 def Pt.combine (s : Pt) (o t m : V3) : Pt :=
   ⟨if s.x.isSome ∨ o.x ≠ t.x then some m.x else none,
@@ -349,6 +352,7 @@ deriving DecidableEq, Repr
 inductive Stmt
   | mode (rel : Bool)                 -- `G91` / `G90`
   | go (rapid : Bool) (w : Pt)        -- `G0` / `G1` with the X/Y/Z words present
+  | set (w : Pt)                      -- `G92` with the X/Y/Z words present
 deriving DecidableEq, Repr
 
 structure Core where
@@ -375,6 +379,8 @@ inductive Op
   | move (req : Pt)
   | rapid (req : Pt)
   | dist (rel : Bool)                 -- `set_distance_mode`
+  | moveAbs (rapid : Bool) (req : Pt) -- `move_absolute` / `rapid_absolute`: bypasses the transform, brackets with G90 … G91
+  | setAxis (req : Pt)                -- `set_axis`: `G92`, no transform applied
 deriving DecidableEq, Repr
 
 namespace Core
@@ -403,6 +409,16 @@ def transformMove (c : Core) (req : Pt) : Pt × V3 :=
 def go (c : Core) (rapid : Bool) (req : Pt) : Core × List Stmt :=
   let r := c.transformMove req
   ({ c with axes := Pt.ofV3 r.2 }, [Stmt.go rapid r.1])
+
+/-- `move_absolute` / `rapid_absolute`: `target_axes = _current_axes.replace(*move)`; inside
+    `with self.absolute_mode():` the raw request is written as it is (no transform). -/
+def goAbs (c : Core) (rapid : Bool) (req : Pt) : Core × List Stmt :=
+  ({ c with axes := Pt.replace c.axes req },
+   if c.rel then [Stmt.mode false, Stmt.go rapid req, Stmt.mode true] else [Stmt.go rapid req])
+
+/-- `set_axis`: `G92` with the raw request -/
+def setAxis (c : Core) (req : Pt) : Core × List Stmt :=
+  ({ c with axes := Pt.replace c.axes req }, [Stmt.set req])
 
 def lift (c : Core) (r : Except Err Tr) : Core × List Stmt × Option Err :=
   match r with
@@ -437,6 +453,8 @@ def step (c : Core) : Op → Core × List Stmt × Option Err
   | .move req => let r := c.go false req; (r.1, r.2, none)
   | .rapid req => let r := c.go true req; (r.1, r.2, none)
   | .dist rel => ({ c with rel := rel }, [Stmt.mode rel], none)
+  | .moveAbs rapid req => let r := c.goAbs rapid req; (r.1, r.2, none)
+  | .setAxis req => let r := c.setAxis req; (r.1, r.2, none)
 
 /-- a call history: final state and everything written -/
 def run (c : Core) : List Op → Core × List Stmt
@@ -459,6 +477,7 @@ def Machine.exec (m : Machine) : Stmt → Machine
   | .go _ w =>
     if m.rel then { m with pos := ⟨m.pos.x + w.x.getD 0, m.pos.y + w.y.getD 0, m.pos.z + w.z.getD 0⟩ }
     else { m with pos := ⟨w.x.getD m.pos.x, w.y.getD m.pos.y, w.z.getD m.pos.z⟩ }
+  | .set w => { m with pos := ⟨w.x.getD m.pos.x, w.y.getD m.pos.y, w.z.getD m.pos.z⟩ }
 
 /-! ## the specification of C13: immutable affine maps, a stack, a name map -/
 
@@ -538,6 +557,8 @@ def step (s : Spec) : Op → Spec × Option Err
   | .move _ => (s, none)
   | .rapid _ => (s, none)
   | .dist _ => (s, none)
+  | .moveAbs _ _ => (s, none)
+  | .setAxis _ => (s, none)
 
 def run (s : Spec) : List Op → Spec × List (Option Err)
   | [] => (s, [])
